@@ -108,6 +108,7 @@ type Run struct {
 	durOf   map[*Term]durInfo // vf.Dur terms -> components
 	fpSecs  map[*Term]durInfo // float64 terms built by Duration.Seconds() from a vf.Dur term
 	allSchedules bool
+	schedBudget  int // vf.Deviations: remaining deviations from the canonical schedule
 	schedForks int
 	mapOrderAll bool
 }
